@@ -96,6 +96,15 @@ def generate(rng: random.Random, tier: str):
         yield {"kind": "history", "store": rng.choice(["mem", "local", "path", "str"]), "fmt": [fmt, fmt, fmt],
                "pre": rng.choice(["fresh", "foreign"]), "entry": rng.choice(["nx", "rx"]),
                "calls": [nx_graph(rng, False), nx_graph(rng, rng.random() < 0.5), nx_graph(rng, rng.random() < 0.5)]}
+    # every other writing entry point (converters with their label volume, write_dicts and the backend writers called directly,
+    # the spatial-graph writer): harness/c06_entries.py, tied to Entry.v
+    yield from generate_entries(rng, tier)
+
+
+def generate_entries(rng, tier):
+    from harness import c06_entries
+
+    yield from c06_entries.generate(rng, tier)
 
 
 def nx_graph(rng, ov):
@@ -230,6 +239,10 @@ def open_target(c):
 def run_impl(c):
     from geff.core_io import read_to_memory
 
+    if c["kind"] == "ehist":
+        from harness import c06_entries
+
+        return c06_entries.run_impl(c)
     it = Interner()
     old_home = os.environ.get("HOME")
     store, real, path = open_target(c)
@@ -347,6 +360,10 @@ def coq_case(c, o):
 
 
 def oracle(c, o):
+    if c["kind"] == "ehist":
+        from harness import c06_entries
+
+        return c06_entries.oracle(c, o)
     fmt_change = len(set(c["fmt"])) > 1
     for i, (call, st) in enumerate(zip(c["calls"], o["steps"])):
         tags = {"step": i, "store": "object" if c["store"] in ("mem", "local") else (c["store"] if c["store"] in ("tilde", "mixed") else "path"), "pre": c["pre"], "entry": c["entry"], "fmt_change": fmt_change}
@@ -402,5 +419,9 @@ def nontrivial(c, o):
 
 
 def describe(c, o):
+    if c["kind"] == "ehist":
+        from harness import c06_entries
+
+        return c06_entries.describe(c, o)
     return (f"{c['entry']}:{c['store']}:v{'>'.join(map(str, c['fmt']))}:{c['pre']}:" +
             ",".join(("ov" if call["ov"] else "no") + "=" + (s["res"][0] if s["res"][0] == "ok" else s["res"][1]) for call, s in zip(c["calls"], o["steps"])))
